@@ -25,7 +25,7 @@ def touched(area):
     import glob
     import re
     out = set()
-    for f in sorted(glob.glob("/verif/equiv/r-%s-*.patch" % area) + glob.glob("/verif/equiv/r2-%s-*.patch" % area)):
+    for f in sorted(glob.glob("/verif/equiv/r-%s-*.patch" % area) + glob.glob("/verif/equiv/r2-%s-*.patch" % area) + glob.glob("/verif/equiv/r3-%s-*.patch" % area)):
         cur = None
         for line in open(f, errors="replace"):
             if line.startswith("+++ b/"):
@@ -40,12 +40,12 @@ def touched(area):
 def prompt(area, rnd):
     desc, pids = AREAS[area]
     ptxt = "\n".join("  %s - %s: %s" % (p, props[p]["title"], props[p]["statement"]) for p in pids)
-    n0 = 1 if rnd == 1 else 9
-    tag = "r" if rnd == 1 else "r2"
+    n0 = {1: 1, 2: 9, 3: 17}[rnd]
+    tag = {1: "r", 2: "r2", 3: "r3"}[rnd]
     extra = ""
     if rnd >= 2:
         extra = f"""
-Other volunteers already delivered eight refactorings of this area; they touched these places (file : function named in the hunk header):
+Other volunteers already delivered eight (or sixteen) refactorings of this area; they touched these places (file : function named in the hunk header):
 {touched(area)}
 Prefer OTHER functions of the area (anything the properties above depend on: helpers, constructors, conversions, trait impls, tables, the plumbing between
 components), and prefer refactorings that change the SHAPE of the code more than a one-token edit: a `match` turned into an if-chain or a lookup through a
